@@ -98,6 +98,35 @@ def obligations(tier, seed):
             obs.append(Ob(f"rt.{ctx}.n{n}", build(params, body, setup=SETUP), f"MetaModule with {n} user-defined controllers ({ctx}): embedded project, count, labels, mappings and stored values survive; exactly the first {n} user-defined controllers are written and exposed",
                           group="rt", shape=f"{ctx}; embedded project [Output, Amplifier, Generator, MultiSynth] + 1x1 pattern; n={n}; mapping i -> target kind i mod 7",
                           symbolic="embedded controller values (4), embedded bpm, note value" + (", one label code point" if n else ""), timeout=600))
+    # stored user-defined values OUTSIDE the mapped controller's range (files written by other versions): the file still loads
+    # (lenient mode also after the nested load of the embedded project) and the stored word is what gets saved again
+    for depth in (1, 2):
+        p_, l_ = build_mm(2, rnd)
+        lines = list(l_)
+        if depth == 2:
+            p_in, l_in = build_mm(1, rnd, var="inner", pfx="i_")
+            lines = l_in + lines + ["mm.project.attach_module(inner)"]
+            p_ = p_in + p_
+        code = "\n".join("    " + l for l in lines)
+        body = f"""
+{code}
+    data = list(save_bytes(Synth(mm)))
+    # replace the 6th stored controller value (user-defined #1, mapped to Amplifier.volume 0..1024) by an arbitrary word
+    ch = RF.walk(data)
+    cv = [i for i, (cid, pl) in enumerate(ch) if cid == b"CVAL"]
+    if len(cv) != 7:
+        return False
+    out = []
+    for i, (cid, pl) in enumerate(ch):
+        out += RF.ck(cid, RF.u32(w) if i == cv[5] else pl)
+    m2 = load_bytes(out).module
+    if m2.user_defined_controllers != 2 or m2.get_raw("user_defined_1") != w:
+        return False
+    m3 = rt(Synth(m2)).module
+    return m3.get_raw("user_defined_1") == w and m3.get_raw("user_defined_2") == m2.get_raw("user_defined_2")
+"""
+        obs.append(Ob(f"stored.outofrange.d{depth}", build(p_ + [R("w", 0, 2**31 - 1)], body, setup=SETUP), f"depth {depth}: a stored user-defined value outside the mapped controller's range loads (also after the nested load) and is preserved by save/load",
+                      group="stored", shape=f"synth(MetaModule) depth {depth}, stored word of user-defined #1 replaced in the written stream", symbolic="stored word 0..2^31-1 + embedded values", timeout=600))
     # nesting: a MetaModule inside the embedded project of a MetaModule (depth 2, thorough 3)
     for depth in ((2,) if tier == "quick" else (2, 3)):
         p_in, l_in = build_mm(2, rnd, var="inner", pfx="i_")
